@@ -180,7 +180,7 @@ def collect(ctx: Ctx, profile: str):
                     if all(p[0]["k"] == "ok" for p in parts):
                         rebuilt, _ = vs.out_of(rebuild, [p[1] for p in parts])
                     events.append({"ev": "memberwise", "T": T, "whole": whole, "parts": [p[0] for p in parts] or [{"k": "ok", "r": {"k": "none", "cls": "NoneType"}}],
-                                   "rebuilt": rebuilt})
+                                   "rebuilt": rebuilt, "classpar": False})
                     meta.append(("marshal", "value", j, pas, repr(v)[:80]))
                 if whole["k"] != "ok":
                     continue
@@ -195,6 +195,13 @@ def collect(ctx: Ctx, profile: str):
                         and strip(st["a"])["n"] in ("str", "bytes", "int", "float", "Decimal"):
                     # raw members that are equal but of different classes: each is converted on its own before the set is built
                     shapes.append(("equal_raw_members", [1, True, 1.0, "1", 0, False, 0.0, "0"]))
+                if j == 0:
+                    # exactly one member is replaced by bytes that are no UTF-8 text (a UnicodeDecodeError for text-reading members)
+                    if isinstance(wv, list) and wv:
+                        shapes.append(("bad_member", [b"\xff\xfe"] + list(wv[1:])))
+                    elif isinstance(wv, dict) and wv:
+                        k0 = next(iter(wv))
+                        shapes.append(("bad_member", {**wv, k0: b"\xff\xfe"}))
                 for sname, x in shapes:
                     gen = isinstance(x, tuple) and len(x) == 3 and x[0] == "lazy"
                     xin = x[2]() if gen else x
@@ -209,13 +216,15 @@ def collect(ctx: Ctx, profile: str):
                     if all(p[0]["k"] == "ok" for p in parts):
                         rebuilt, _ = vs.out_of(rebuild, [p[1] for p in parts])
                     events.append({"ev": "memberwise", "T": T, "whole": whole_u, "parts": [p[0] for p in parts] or [{"k": "ok", "r": {"k": "none", "cls": "NoneType"}}],
-                                   "rebuilt": rebuilt})
+                                   "rebuilt": rebuilt, "classpar": False})
+                    if sname == "bad_member":
+                        events[-1]["classpar"] = sum(1 for p in parts if p[0]["k"] == "raised") == 1
                     meta.append(("unmarshal", sname, j, pas, repr(x)[:80]))
                     if sname == "wire" and whole_u["k"] == "ok":
                         # the same, rebuilt from the leaves up (every nesting level taken apart by the harness)
                         deep, _ = vs.out_of(deep_rebuild, T, wv, defs, env)
                         events.append({"ev": "memberwise", "T": T, "whole": whole_u, "parts": [{"k": "ok", "r": {"k": "none", "cls": "NoneType"}}],
-                                       "rebuilt": deep})
+                                       "rebuilt": deep, "classpar": False})
                         meta.append(("unmarshal", "wire:from_leaves", j, pas, repr(x)[:80]))
     return events, meta, model, len(composites)
 
